@@ -20,6 +20,14 @@ CHECKS = {
             "Small-scope hypothesis; exact dyadic / decimal lattices; pitch differences kept >=1 cent from the "
             "tolerance; brute-force bitmask DP as the reference.",
             "bounded exhaustive explicit-state enumeration of inputs against a brute-force reference model"),
+    "C13": (MC, "DESIGN.md §5 C13",
+            "All time-ordered interval sequences (<=4, thorough <=5 intervals on a 8/9-point lattice) x every "
+            "(t_min,t_max) on the lattice, half-lattice and beyond, all pairs of contiguous segmentations <=7 cells, "
+            "all sample grids and all boundary lists of the stated bounds are pushed through the real util "
+            "functions and compared cell by cell with a step-function reference model. Exhaustive within bounds.",
+            "Small-scope hypothesis; integer/half-integer times (exact); 5-decimal rounding lattice kept away "
+            "from rounding ties; reading of 'internal gap' stated in the evidence assumptions.",
+            "bounded exhaustive explicit-state enumeration of inputs against a step-function reference model"),
 }
 
 NOT_YET = {}
